@@ -177,11 +177,14 @@ def rand_op(rng, k, kind):
 # ---------------------------------------------------------------------------
 
 class Case:
-    __slots__ = ('op', 'impl', 'oracle', 'approx', 'key', 'ntkey', 'replay', 'value')
+    __slots__ = ('op', 'impl', 'oracle', 'approx', 'key', 'ntkey', 'replay', 'value', 'soft')
 
-    def __init__(self, op, impl, oracle=None, approx=False, key='', ntkey=None, replay=None):
+    def __init__(self, op, impl, oracle=None, approx=False, key='', ntkey=None, replay=None, soft=False):
         self.op, self.impl, self.oracle, self.approx, self.key, self.ntkey, self.replay = op, impl, oracle, approx, key, ntkey, replay
         self.value = None
+        # soft: a tie of the literal model to an internal helper (not part of the property's public behaviour): a mismatch is
+        # recorded in the evidence but is not by itself a broken correspondence
+        self.soft = soft
 
 
 def S():
@@ -708,7 +711,7 @@ def slice_cases(ctx, rng):
         shape = tuple(int(x) for x in rng.integers(2, 6, size=L))
         index = tuple((None if rng.integers(0, 2) else int(rng.integers(0, d))) for d in shape)
         cases.append(Case('C03 rsi ' + enc_ri(shape, index), (lambda shape=shape, index=index: enc_ri(*st.reduce_shape_index(shape, index))),
-                          key='reduce_shape_index', ntkey=('rsi', shape, index)))
+                          key='reduce_shape_index', ntkey=('rsi', shape, index), soft=True))
     nmax = 5 if ctx.quick() else 7
     for n in range(1, nmax + 1):
         for r in range(0, n + 1):
@@ -720,7 +723,7 @@ def slice_cases(ctx, rng):
                     return ';'.join(str(int(x)) for x in pos) + ' slice=bitwise'
                 def o(n=n, c=c):
                     return [p for p in range(2 ** n) if all((p >> (n - 1 - q)) & 1 for q in c)]
-                cases.append(Case(f'C03 slicepos {n} {idx_str(c)}', f, key='control-slice', ntkey=('slicepos', n, c)))
+                cases.append(Case(f'C03 slicepos {n} {idx_str(c)}', f, key='control-slice', ntkey=('slicepos', n, c), soft=True))
     return cases
 
 
@@ -733,7 +736,13 @@ def all_cases(ctx):
         cases = gate_cases(ctx, rng) + embed_cases(ctx, rng) + dm_cases(ctx, rng) + inner_cases(ctx, rng) + prob_cases(ctx, rng) \
             + circuit_cases(ctx, rng) + malformed_cases(ctx, rng) + slice_cases(ctx, rng)
         for c in cases:
-            c.value = guarded(c.impl)
+            if c.soft:
+                try:
+                    c.value = c.impl()
+                except Exception as e:      # internal helper renamed / re-shaped: the tie is simply not applicable
+                    c.value = 'unavailable:' + type(e).__name__
+            else:
+                c.value = guarded(c.impl)
         _CACHE['cases'] = cases
     return _CACHE['cases']
 
@@ -774,6 +783,11 @@ def correspondence(ctx):
         ctx.count(c.key)
         if agree(c, m):
             ctx.agree(c.op, c.ntkey)
+        elif c.soft:
+            ctx.count('internal-helper-tie-mismatch:' + c.key)
+            if not any(c.key in x for x in ctx.notes):
+                ctx.note(f'internal helper behind {c.key} no longer matches its literal model (e.g. {c.op[:80]}: impl {str(c.value)[:60]} / model {m[:60]}); '
+                         'not a property violation by itself - the public routines are compared on every index pattern')
         else:
             v = c.value
             shown = v if isinstance(v, str) else (enc_z(v) or repr(np.asarray(v).tolist()))
